@@ -3,7 +3,7 @@
    field tables: Gen/C11_Rinex{2,3}ObsFields.v (regenerated from the source on every run). *)
 From Coq Require Import Ascii String List Bool ZArith QArith Arith Lia.
 From Verif Require Import Lib.Text Lib.Decimal Lib.Fixed Model.C11_Rinex Model.C11_Check Spec.C11_RinexFormat Spec.C11_RinexFile
-     Proofs.C11_Rinex Proofs.C11_File3 Proofs.C11_Hdr3.
+     Proofs.C11_Rinex Proofs.C11_File3 Proofs.C11_Hdr3 Proofs.C11_Hdr2 Proofs.C11_File2.
 Import ListNotations.
 Local Open Scope nat_scope.
 Local Open Scope string_scope.
@@ -134,6 +134,67 @@ Print Assumptions decimation_file_spec.
 Theorem undefined_types_absent : forall mk ts all e sa t, ~ In t ts -> cell_of t (row3 mk ts all e sa) = absent.
 Proof. exact row3_undefined_absent. Qed.
 Print Assumptions undefined_types_absent.
+
+(* ---- RINEX 2, records through the model on the regenerated tables (Spec/C11_RinexFile.v, file2) *)
+
+(* # / TYPES OF OBSERV through h_types_v2: ANY number of types (9 per line + continuation lines) *)
+Theorem types_of_observ_roundtrip : forall types s, types <> [] -> Forall type2_ok types ->
+  fits_int 6 (Z.of_nat (List.length types)) ->
+  hfold G2.header_table (types_lines_v2 types) s = Some (with_v2 s types (Some (Z.of_nat (List.length types)))).
+Proof. exact types_lines_ok2. Qed.
+Print Assumptions types_of_observ_roundtrip.
+
+(* TIME OF FIRST OBS (5I6, F13.7, 5X, A3) -> meta time_sys / time_first_obs *)
+Theorem time_of_first_obs_roundtrip : forall t s, first_ok t ->
+  header_line G2.header_table (first_obs_line t) s =
+  Some (set_meta (assoc_set "time_first_obs" (MStr (time_text (ep_y t) (ep_mo t) (ep_d t) (ep_h t) (ep_mi t) (dec_value (ep_s7 t) 7)))
+                            (assoc_set "time_sys" (MStr "GPS") (meta s))) s).
+Proof. exact first_obs_ok. Qed.
+Print Assumptions time_of_first_obs_roundtrip.
+
+(* the epoch line through its columns: two-digit year resolved with the century of TIME OF FIRST OBS, sub-second epoch,
+   flag, number of satellites, up to 12 satellites (blank tens digit -> 0), optional F12.9 clock offset *)
+Theorem epoch_roundtrip_v2 : forall rate Y fmo fd fh fmi fsec, (1000 <= Y < 10000)%Z -> forall t nsat ids s c,
+  inv2_meta Y fmo fd fh fmi fsec s -> epoch_t_wf t -> (ep_y t / 100 = Y / 100)%Z ->
+  match ep_clk t with None => True | Some v => fits_F 12 9 v end -> fits_int 3 nsat ->
+  ids <> [] -> List.length ids <= 12 -> Forall sat2_id_ok ids ->
+  v2_line spec_q rate G2.obs_table (epoch_first_line_v2 t nsat ids) s c =
+  Some (s, {| c_epoch := Some (einfo2 rate t nsat); c_sats := Some (map fix3 ids); c_len := List.length ids; c_acc := c_acc c |}).
+Proof. exact v2_first_line. Qed.
+Print Assumptions epoch_roundtrip_v2.
+
+(* satellite-list continuation line (32X, 12(A1,I2)): appended to the epoch's list, nothing else changes *)
+Theorem sat_list_continuation_v2 : forall rate ids s c l0, c_sats c = Some l0 -> ids <> [] -> List.length ids <= 12 ->
+  Forall sat2_id_ok ids ->
+  v2_line spec_q rate G2.obs_table (epoch_cont_line_v2 ids) s c =
+  Some (s, {| c_epoch := c_epoch c; c_sats := Some (l0 ++ map fix3 ids)%list; c_len := List.length (l0 ++ map fix3 ids)%list;
+              c_acc := c_acc c |}).
+Proof. exact v2_cont_line. Qed.
+Print Assumptions sat_list_continuation_v2.
+
+(* every non-empty observation line (1..5 cells, trailing blanks cut) is classified as observation line by the label
+   function, and no observation line (cut or not, empty or not) is taken for the start of a new epoch *)
+Theorem obs_line_classified_v2 : forall c1 r, Forall cell_wf (c1 :: r) ->
+  (rstrip (cat (map render_cell (c1 :: r))) <> "" -> v2_label (rstrip (cat (map render_cell (c1 :: r)))) = true) /\
+  (forall cut, v2_end_marker (maybe_rstrip cut (cat (map render_cell (c1 :: r))) ++ String "010"%char "") = false).
+Proof. intros c1 r F. split; [apply obs_label, F|intros cut; apply obs_not_marker, F]. Qed.
+Print Assumptions obs_line_classified_v2.
+
+(* the observation record of ONE satellite through the model (run_obs on the regenerated table): any number n >= 1 of
+   observation types on ceil(n/5) lines, trailing blanks cut or not, all-blank and EMPTY lines included (specification model =
+   behaviour after fix ffb5f24): exactly one row with the record's values, the satellite is popped, the accumulator is empty.
+   [cont2] = how ChainParser continues with the following lines (cache reset iff the next line starts a new epoch). *)
+Theorem obs_record_roundtrip_v2 : forall rate e q sat rest num mk cut cells s c tail,
+  e_sec e = Some q -> parse_int (drop 1 sat) = Some num ->
+  Forall cell_wf cells -> cells <> [] -> List.length (types_all s) = List.length cells ->
+  c_epoch c = Some e -> e_num_sat e = Z.of_nat (c_len c) -> num_types s = Some (Z.of_nat (List.length cells)) ->
+  c_sats c = Some (sat :: rest) -> c_acc c = [] -> meta_str "marker_name" s = Some mk ->
+  run_obs (v2_line spec_q rate G2.obs_table) v2_end_marker (render_obs_v2 cut cells ++ tail) s c =
+  cont2 (v2_line spec_q rate G2.obs_table) v2_end_marker tail
+        (add_row s (row2_of e sat num mk (types_all s) (map cell_val cells)))
+        {| c_epoch := c_epoch c; c_sats := Some rest; c_len := c_len c; c_acc := [] |}.
+Proof. exact sat_record_v2. Qed.
+Print Assumptions obs_record_roundtrip_v2.
 
 (* ---- non-vacuity *)
 Example wf_cell_ex : cell_wf {| cv := VNum (-353); clli := Some 4%Z; cssi := None |}.
